@@ -234,6 +234,16 @@ pub fn check_url(c: &UrlCase, obs: &mut Obs) -> Result<(), String> {
         return Err(format!("{:?}: hostname {:?} is not the host component of the normalised URL {:?}", url, q.hostname, q.url));
     }
     let scheme_l = c.scheme.to_ascii_lowercase();
+    // the normalised URL is the input with the scheme lower-cased and the host in its ASCII form;
+    // everything behind the authority is kept as written (only C0 controls / spaces at the two ends
+    // and ASCII tab / LF / CR anywhere are dropped) - in particular a trailing DEL (U+007F) stays
+    if c.userinfo.is_none() {
+        let strip = |x: &str| x.chars().filter(|ch| !matches!(ch, '\t' | '\n' | '\r')).collect::<String>();
+        let want = format!("{}://{}{}{}", scheme_l, c.host_ascii, c.port.map(|p| format!(":{}", p)).unwrap_or_default(), strip(&c.tail));
+        if strip(&q.url) != want {
+            return Err(format!("{:?}: normalised URL {:?}, expected {:?}", url, q.url, want));
+        }
+    }
     let supported = ["http", "https", "ws", "wss"].contains(&scheme_l.as_str());
     if q.is_supported != supported {
         return Err(format!("{:?}: is_supported = {}", url, q.is_supported));
@@ -301,6 +311,8 @@ fn decode_url(t: &mut Tape) -> UrlCase {
     let userinfo = if t.chance(1, 6) { Some(t.choose(&["user", "user:pass", "u%40x", "a:b:c", "üser", "example.org", "x:"]).to_string()) } else { None };
     let port = if t.chance(1, 5) { Some(t.choose(&[80u16, 443, 8080, 1, 65535])) } else { None };
     let tail = format!("{}{}{}", gen::path(t), if t.chance(1, 3) { format!("?{}", gen::query(t)) } else { String::new() }, if t.chance(1, 6) { "#frag@x:1/".to_string() } else { String::new() });
+    // characters just above the stripped range at the very end of the URL are part of it
+    let tail = if t.chance(1, 15) { format!("{}{}", tail, t.choose(&["\u{7f}", "\u{7f}\u{7f}", "!", "\u{a0}"])) } else { tail };
     let special = ["http", "https", "ws", "wss", "ftp", "gopher"].contains(&scheme.to_ascii_lowercase().as_str());
     let tail = if special && userinfo.is_none() && t.chance(1, 12) {
         // on special schemes a backslash ends the authority like '/': an '@' behind it is path text
